@@ -15,8 +15,9 @@
 
   Proved here: constructors, `parse_smt_literal`, the `str_*` functions that return strings
   (model of Model/Strings.lean), usability with `ReManager::str`.
-  NOT here (belongs to the regex model, C05/C10): `get_string`, `str_replace_re`,
-  `str_replace_re_all` — listed under `partial` in checks.d/C17.json.
+  NOT here (needs the regex model, C05/C10/C19): `get_string`, `str_replace_re`,
+  `str_replace_re_all` — proved in Props/C17Re.lean; Props/C17All.lean is the umbrella module that
+  checks.d/C17.json audits.
 -/
 import SmtModel.Proofs.LiteralGood
 
